@@ -18,6 +18,28 @@ func verifOpDone() { verifOps.Add(1) }
 // VerifOpsDone returns the number of completed handler critical sections.
 func VerifOpsDone() int64 { return verifOps.Load() }
 
+// verifOpHook is the observer of handler critical sections (nil = none).
+var verifOpHook atomic.Pointer[func(kind string, lnk link.Link)]
+
+// verifOpEvent reports the end of a HandleLinkEstablished ("est") / HandleLinkLost ("lost")
+// critical section for lnk. It is called with the controller lock held, so the order of
+// the calls is the order of the critical sections.
+func verifOpEvent(kind string, lnk link.Link) {
+	if f := verifOpHook.Load(); f != nil {
+		(*f)(kind, lnk)
+	}
+}
+
+// VerifSetOpHook installs (or, with nil, removes) the observer of handler critical sections.
+// The observer runs with the controller lock held and must not call into the controller.
+func VerifSetOpHook(f func(kind string, lnk link.Link)) {
+	if f == nil {
+		verifOpHook.Store(nil)
+		return
+	}
+	verifOpHook.Store(&f)
+}
+
 // VerifSnapshot returns the link tables: links by uuid, and links by peer id.
 func (c *Controller) VerifSnapshot() (map[uint64]link.Link, map[peer.ID][]link.Link) {
 	byUUID := make(map[uint64]link.Link)
